@@ -1,1 +1,297 @@
-/-! C06 — property theorems (stub; no obligations yet) -/
+import Ypv.Lemmas.Diff
+/-!
+# C06 — a diff is truthful and complete; it is empty of changes iff the data are equal
+
+The property theorems about the model `Ypv.Diff` (`Model/Diff.lean`) of `yamlpath.differ`.
+The definitions the statements use (`clean`, `dataEq`, `msEq`, `Balanced`, `leaves`, `covers`, `wf`,
+`keyed`, `Positional`, `NoKeySync`, `keyPairEntries`, `valuePairEntries`) are in `Spec/Diff.lean`;
+the proofs are in `Lemmas/Diff.lean` (namespace `Ypv.Diff.Proofs`) and are only referred to here.
+
+`s : Bool` is the `strict` flag of the model: `s = false` is the code (`report c l r = diff false c l r`),
+`s = true` the variant that reports a null / an empty container at its own path (finding C06-K1).
+-/
+namespace Ypv.C06
+open Ypv Ypv.Diff
+
+/-! ## Truthfulness and completeness under positional comparison -/
+
+/-- **Under positional comparison every entry of a diff is true of the two documents.**
+For every entry `e` of the report (`s = false`: the code; also for the strict variant):
+a SAME/CHANGE/DELETE entry's left value is what the left document holds at `e.path`,
+a SAME/CHANGE/ADD entry's right value is what the right document holds there, SAME values are
+equal, CHANGE values differ, an ADD has no left and a DELETE no right value. -/
+theorem diff_truthful (s : Bool) (c : Cfg) (hc : Positional c) (l r : Node)
+    (hl : wf l = true) (hr : wf r = true) (e : Entry) (he : e ∈ diff s c l r) :
+    (e.action ≠ .add → e.lhs.isSome ∧ e.lhs = l.get? e.path)
+    ∧ (e.action ≠ .delete → e.rhs.isSome ∧ e.rhs = r.get? e.path)
+    ∧ (e.action = .add → e.lhs = none) ∧ (e.action = .delete → e.rhs = none)
+    ∧ (e.action = .same → ∃ a b, e.lhs = some a ∧ e.rhs = some b ∧ eqv a b = true)
+    ∧ (e.action = .change → ∃ a b, e.lhs = some a ∧ e.rhs = some b ∧ eqv a b = false) := by
+  first
+    | exact Ypv.Diff.Proofs.diff_truthful ..
+    | (apply Ypv.Diff.Proofs.diff_truthful <;> assumption)
+
+/-- **Under positional comparison every leaf of either document is covered by an entry at its
+path or at an ancestor path** — a left leaf by a SAME/CHANGE/DELETE entry, a right leaf by a
+SAME/CHANGE/ADD entry — in the strict report. -/
+theorem diff_complete_strict (c : Cfg) (hc : Positional c) (l r : Node) (hl : wf l = true) (hr : wf r = true) :
+    (∀ a ∈ leaves l, ∃ e ∈ diff true c l r, e.action ≠ .add ∧ covers e.path a)
+    ∧ (∀ a ∈ leaves r, ∃ e ∈ diff true c l r, e.action ≠ .delete ∧ covers e.path a) := by
+  first
+    | exact Ypv.Diff.Proofs.diff_complete_strict ..
+    | (apply Ypv.Diff.Proofs.diff_complete_strict <;> assumption)
+
+/-- (`_partial`: the class of finding C06-K1 is excluded by the decidable hypothesis `hv`; the full
+statement — without `hv` — is false for the code, witness below, and is `diff_complete_strict` for
+the strict variant.)
+**Completeness of the code's report**, on every pair of documents outside the class of finding
+C06-K1 (`report c l r = diff true c l r`, decidable). -/
+theorem diff_complete_partial (c : Cfg) (hc : Positional c) (l r : Node) (hl : wf l = true) (hr : wf r = true)
+    (hv : report c l r = diff true c l r) :
+    (∀ a ∈ leaves l, ∃ e ∈ report c l r, e.action ≠ .add ∧ covers e.path a)
+    ∧ (∀ a ∈ leaves r, ∃ e ∈ report c l r, e.action ≠ .delete ∧ covers e.path a) := by
+  first
+    | exact Ypv.Diff.Proofs.diff_complete_partial ..
+    | (apply Ypv.Diff.Proofs.diff_complete_partial <;> assumption)
+
+/-! ## Clean ⇔ equal as data -/
+
+/-- **The strict report is clean exactly when the two documents are equal as data** (`dataEq`), in
+every array mode and the AoH modes `position`, `dpos` and `value`: position by position, or — under
+value synchronisation — as multisets of `==`-equal elements (`msEq_iff_balanced`). -/
+theorem diff_clean_iff_dataEq_strict (c : Cfg) (hc : NoKeySync c) (l r : Node)
+    (hl : wf l = true) (hr : wf r = true) : clean (diff true c l r) = true ↔ dataEq c l r = true := by
+  first
+    | exact Ypv.Diff.Proofs.diff_clean_iff_dataEq_strict ..
+    | (apply Ypv.Diff.Proofs.diff_clean_iff_dataEq_strict <;> assumption)
+
+/- FULL STATEMENT (not proved in this generality):
+     theorem diff_clean_iff_dataEq (c : Cfg) (l r : Node) (hl : wf l) (hr : wf r)
+         (hu : UniqueIdentityKeys c l r)   -- only for c.aoh ∈ {key, deep}
+         (hv : report c l r = diff true c l r) :
+         clean (report c l r) = true ↔ dataEq c l r = true
+   for every array mode and AoH mode.  PROVED: all array modes × the AoH modes position / dpos /
+   value (`diff_clean_iff_dataEq_partial`), and one list level of the identity-key mode `key`
+   (`key_clean_iff_msEq`).  MISSING: the document-level statement for `key` and `deep` (threading
+   the identity hypothesis through the recursion; for `deep` the pairing by identity value has to be
+   related to the recursive `dataEqMs`).  For those two modes the document-level facts proved are
+   `diff_refl`, `sync_accounting` and `key_report_follows_sync`; the equivalence is checked on the real
+   code by the harness against an independent Python oracle. -/
+
+/-- (`_partial`: AoH modes `key`/`deep` not covered; the class of finding C06-K1 is excluded by the
+decidable hypothesis `hv`.)  **The report of the code is clean exactly when the documents are
+equal as data.** -/
+theorem diff_clean_iff_dataEq_partial (c : Cfg) (hc : NoKeySync c) (l r : Node)
+    (hl : wf l = true) (hr : wf r = true) (hv : report c l r = diff true c l r) :
+    clean (report c l r) = true ↔ dataEq c l r = true := by
+  first
+    | exact Ypv.Diff.Proofs.diff_clean_iff_dataEq_partial ..
+    | (apply Ypv.Diff.Proofs.diff_clean_iff_dataEq_partial <;> assumption)
+
+/-- **Documents that are equal under Python `==` give a clean report** in every array mode and the
+AoH modes `position`, `dpos`, `value` (for the code and for the strict variant): under value
+synchronisation the greedy first-match pairing leaves no element unpaired, because `==` is an
+equivalence on well-formed documents (`eqv_symm`, `eqv_trans`, `syncLoop_balanced`). -/
+theorem diff_clean_of_eqv (s : Bool) (c : Cfg) (hc : NoKeySync c) (l r : Node)
+    (hl : wf l = true) (hr : wf r = true) (h : eqv r l = true) : clean (diff s c l r) = true := by
+  first
+    | exact Ypv.Diff.Proofs.diff_clean_of_eqv ..
+    | (apply Ypv.Diff.Proofs.diff_clean_of_eqv <;> assumption)
+
+/-- **Meaning of the value-synchronised comparison of the specification**: the greedy `msEq` succeeds
+exactly when the two lists hold the same number of elements of every `==`-class (multiset equality
+up to Python `==`). -/
+theorem msEq_iff_balanced : ∀ (xs ys : List Node), (∀ x ∈ xs, wf x = true) → (∀ y ∈ ys, wf y = true) →
+    (msEq (fun x y => eqv y x) xs ys = true ↔ Balanced xs ys) := by
+  first
+    | exact Ypv.Diff.Proofs.msEq_iff_balanced ..
+    | (apply Ypv.Diff.Proofs.msEq_iff_balanced <;> assumption)
+
+/-- a reordering of a list is equal to it as data under value synchronisation -/
+theorem msEq_of_perm (xs ys : List Node) (hwx : ∀ x ∈ xs, wf x = true) (hp : xs.Perm ys) :
+    msEq (fun x y => eqv y x) xs ys = true := by
+  first
+    | exact Ypv.Diff.Proofs.msEq_of_perm ..
+    | (apply Ypv.Diff.Proofs.msEq_of_perm <;> assumption)
+
+/-- **One list level of `--aoh key`**: when every left record carries the identity key and no two
+right records share an identity value, the KEY report of the two record lists is clean exactly when
+the lists are equal as multisets of `==`-equal records (the specification's `dataEq` for this mode).
+Without the hypotheses the statement fails on the code (finding C06-K2). -/
+theorem key_clean_iff_msEq (s : Bool) (c : Cfg) (q : Addr) (ka : Key) : ∀ (xs : List Node) (i : Nat) (rem : List (Nat × Node)),
+    (∀ x ∈ xs, wf x = true) → (∀ y ∈ rem, wf y.2 = true) → (∀ x ∈ xs, hasIdentity ka x = true) →
+    (rem.map (fun p => p.2)).Pairwise (fun a b => keyMatch ka a b = false) →
+    clean (diffKey s c q false ka i xs rem) = msEq (fun x y => eqv x y) xs (rem.map (fun p => p.2)) := by
+  first
+    | exact Ypv.Diff.Proofs.key_clean_iff_msEq ..
+    | (apply Ypv.Diff.Proofs.key_clean_iff_msEq <;> assumption)
+
+/-- `key_clean_iff_msEq` at the root of two documents that are record lists compared under
+`--aoh key`: the report (of the code and of the strict variant) is clean exactly when the two
+lists are equal as data. -/
+theorem diff_clean_iff_dataEq_key_root (s : Bool) (c : Cfg) (a b : Option Str) (xs ys : List Node)
+    (hm : listMode c xs ys = .key) (hl : wf (.seq a xs) = true) (hr : wf (.seq b ys) = true)
+    (hid : ∀ x ∈ xs, hasIdentity (keyAttr ys) x = true)
+    (hpw : ys.Pairwise (fun u v => keyMatch (keyAttr ys) u v = false)) :
+    clean (diff s c (.seq a xs) (.seq b ys)) = dataEq c (.seq a xs) (.seq b ys) := by
+  first
+    | exact Ypv.Diff.Proofs.diff_clean_iff_dataEq_key_root ..
+    | (apply Ypv.Diff.Proofs.diff_clean_iff_dataEq_key_root <;> assumption)
+
+/-! ## A document compared with itself -/
+
+/-- **A document compared with itself shows no difference** — in every array mode and every
+Array-of-Hashes mode, for the code as it is (`s = false`) and for the strict variant.
+`wf`: mapping keys / set members are distinct (Python guarantees it).  `keyed c l`: under the
+identity-key modes (`key`, `deep`) every record of a synchronised list carries the identity key
+(no condition in the other modes; without it the code reports the key-less record as deleted and
+added: finding C06-K2, witness below). -/
+theorem diff_refl (s : Bool) (c : Cfg) (l : Node) (hw : wf l = true) (hk : keyed c l = true) :
+    clean (diff s c l l) = true := by
+  first
+    | exact Ypv.Diff.Proofs.diff_refl ..
+    | (apply Ypv.Diff.Proofs.diff_refl <;> assumption)
+
+/-- in the modes without identity keys `keyed` holds for every document -/
+theorem keyed_of_no_key_sync (c : Cfg) (h : c.aoh ≠ .key ∧ c.aoh ≠ .deep) : ∀ (l : Node), keyed c l = true := by
+  first
+    | exact Ypv.Diff.Proofs.keyed_of_no_key_sync ..
+    | (apply Ypv.Diff.Proofs.keyed_of_no_key_sync <;> assumption)
+
+/-! ## Accounting of a synchronisation -/
+
+/-- Each left element appears exactly once (in order, with its own index) among the tuples of a
+synchronisation, each right element exactly once (the right sides of the tuples are a permutation
+of the indexed right list), every tuple is a matched pair for which the matcher holds, a lone left
+element, or a lone right element.  Holds for every matcher, hence for
+`synchronize_lists_by_value` and `synchronize_lods_by_key`.  Proved by induction over the loop
+with the list of remaining right elements (`rhs_reduced`) as the invariant. -/
+theorem sync_accounting (m : Node → Node → Bool) (xs ys : List Node) :
+    (sync m xs ys).filterMap (fun p => p.l) = enumFrom 0 xs
+    ∧ ((sync m xs ys).filterMap (fun p => p.r)).Perm (enumFrom 0 ys)
+    ∧ (∀ p ∈ sync m xs ys,
+        (∃ a b, p = ⟨some a, some b⟩ ∧ m a.2 b.2 = true) ∨ (∃ a, p = ⟨some a, none⟩) ∨ (∃ b, p = ⟨none, some b⟩)) := by
+  first
+    | exact Ypv.Diff.Proofs.sync_accounting ..
+    | (apply Ypv.Diff.Proofs.sync_accounting <;> assumption)
+
+/-- the indices on the two sides: `0 … len-1`, each once -/
+theorem sync_indices (m : Node → Node → Bool) (xs ys : List Node) :
+    ((sync m xs ys).filterMap (fun p => p.l)).map (fun a => a.1) = List.range' 0 xs.length
+    ∧ (((sync m xs ys).filterMap (fun p => p.r)).map (fun a => a.1)).Perm (List.range' 0 ys.length) := by
+  first
+    | exact Ypv.Diff.Proofs.sync_indices ..
+    | (apply Ypv.Diff.Proofs.sync_indices <;> assumption)
+
+/-- The KEY/DEEP report of two record lists is, tuple by tuple, what the synchronisation says:
+a matched pair is compared (one SAME/CHANGE entry, or the pair's own diff), a lone left record is
+one DELETE, a lone right record one ADD.  With `sync_accounting`: every left record is accounted
+for exactly once as same/changed/deleted and every right record exactly once as same/changed/added. -/
+theorem key_report_follows_sync (s : Bool) (c : Cfg) (p : Addr) (deep : Bool) (ka : Key) :
+    ∀ (xs : List Node) (i : Nat) (rem : List (Nat × Node)),
+    diffKey s c p deep ka i xs rem = (syncLoop (keyMatch ka) i xs rem).flatMap (keyPairEntries s c p deep) := by
+  first
+    | exact Ypv.Diff.Proofs.key_report_follows_sync ..
+    | (apply Ypv.Diff.Proofs.key_report_follows_sync <;> assumption)
+
+/-- The value-synchronised report, before the pending ADDs are merged with DELETEs at the same
+path: the entries of the matched and lone left elements follow the tuples of
+`synchronize_lists_by_value`, and the elements still to be added are exactly its lone right elements. -/
+theorem value_report_follows_sync (s : Bool) (c : Cfg) (p : Addr) :
+    ∀ (xs : List Node) (i : Nat) (rem : List (Nat × Node)),
+    (diffValue s c p i xs rem).1 = (syncLoop (fun x y => eqv y x) i xs rem).flatMap (valuePairEntries s c p)
+    ∧ (diffValue s c p i xs rem).2
+        = (syncLoop (fun x y => eqv y x) i xs rem).filterMap (fun q => match q with | ⟨none, some b⟩ => some b | _ => none) := by
+  first
+    | exact Ypv.Diff.Proofs.value_report_follows_sync ..
+    | (apply Ypv.Diff.Proofs.value_report_follows_sync <;> assumption)
+
+/-! ## Exit status -/
+
+/-- `yaml-diff` exits with 0 exactly when the report has no entry other than SAME
+(`print_report`'s `changes_found` flag, `exit_state = 1 if … else 0`). -/
+theorem exit_zero_iff_clean (rep : List Entry) : exitStatus rep = 0 ↔ clean rep = true := by
+  first
+    | exact Ypv.Diff.Proofs.exit_zero_iff_clean ..
+    | (apply Ypv.Diff.Proofs.exit_zero_iff_clean <;> assumption)
+
+/-- (`_partial`: same restrictions as `diff_clean_iff_dataEq_partial`.)  **`yaml-diff` exits with 0
+exactly when the two documents are equal as data** (used by C16). -/
+theorem diff_exit_zero_iff_dataEq_partial (c : Cfg) (hc : NoKeySync c) (l r : Node)
+    (hl : wf l = true) (hr : wf r = true) (hv : report c l r = diff true c l r) :
+    exitStatus (report c l r) = 0 ↔ dataEq c l r = true := by
+  first
+    | exact Ypv.Diff.Proofs.diff_exit_zero_iff_dataEq_partial ..
+    | (apply Ypv.Diff.Proofs.diff_exit_zero_iff_dataEq_partial <;> assumption)
+
+/-! ## Witnesses: the hypotheses are met by non-trivial values; the findings on the model -/
+
+example : Positional ⟨.position, .position⟩ ∧ Positional ⟨.position, .dpos⟩ ∧ NoKeySync ⟨.value, .value⟩ := by decide
+
+example : exitStatus (report ⟨.position, .position⟩ (.seq none [.scalar none (.int 1)]) (.seq none [])) = 1 := by
+  decide +kernel
+
+example : syncByValue [.scalar none (.int 1), .scalar none (.int 2), .scalar none (.int 3)]
+    [.scalar none (.int 3), .scalar none (.int 1), .scalar none (.int 4)]
+    = [⟨some (0, .scalar none (.int 1)), some (1, .scalar none (.int 1))⟩,
+       ⟨some (1, .scalar none (.int 2)), none⟩,
+       ⟨some (2, .scalar none (.int 3)), some (0, .scalar none (.int 3))⟩,
+       ⟨none, some (2, .scalar none (.int 4))⟩] := by decide +kernel
+
+/-- `[a, null]` compared with itself (the design-time suspicion) is clean in the repaired model -/
+example : report ⟨.position, .position⟩ (.seq none [.scalar none (.str ['a']), .scalar none .null])
+      (.seq none [.scalar none (.str ['a']), .scalar none .null])
+    = [⟨.same, [.idx 0], some (.scalar none (.str ['a'])), some (.scalar none (.str ['a']))⟩,
+       ⟨.same, [.idx 1], some (.scalar none .null), some (.scalar none .null)⟩] := by decide +kernel
+
+/-- `[1, 2]` against `[]` deletes both elements in the repaired model -/
+example : report ⟨.position, .position⟩ (.seq none [.scalar none (.int 1), .scalar none (.int 2)]) (.seq none [])
+    = [mkDel [.idx 0] (.scalar none (.int 1)), mkDel [.idx 1] (.scalar none (.int 2))] := by decide +kernel
+
+/-- value synchronisation: `[1, 2, 2]` and `[2, 1, 2]` are equal as data, `[1, 2, 2]` and `[1, 1, 2]` are not -/
+example : dataEq ⟨.value, .position⟩ (.seq none [.scalar none (.int 1), .scalar none (.int 2), .scalar none (.int 2)])
+      (.seq none [.scalar none (.int 2), .scalar none (.int 1), .scalar none (.int 2)]) = true
+    ∧ dataEq ⟨.value, .position⟩ (.seq none [.scalar none (.int 1), .scalar none (.int 2), .scalar none (.int 2)])
+      (.seq none [.scalar none (.int 1), .scalar none (.int 1), .scalar none (.int 2)]) = false := by
+  decide +kernel
+
+/-- finding C06-K1 on the model: `{}` against `[]` gives an empty (hence clean) report although the
+data differ, and the hypothesis `report c l r = diff true c l r` of the `…_partial` theorems fails -/
+example : clean (report ⟨.position, .position⟩ (.map none []) (.seq none [])) = true
+    ∧ dataEq ⟨.position, .position⟩ (.map none []) (.seq none []) = false
+    ∧ report ⟨.position, .position⟩ (.map none []) (.seq none []) ≠ diff true ⟨.position, .position⟩ (.map none []) (.seq none []) := by
+  decide +kernel
+
+/-- finding C06-K1 on the model: `null` against `[1]` — the left leaf (the root) has no entry -/
+example : report ⟨.position, .position⟩ (.scalar none .null) (.seq none [.scalar none (.int 1)])
+    = [mkAdd [.idx 0] (.scalar none (.int 1))] := by decide +kernel
+
+/-- the hypothesis `report c l r = diff true c l r` is met by documents with nulls and empty containers -/
+example : report ⟨.position, .position⟩ (.seq none [.scalar none .null, .seq none []]) (.seq none [.scalar none .null, .seq none [], .map none []])
+    = diff true ⟨.position, .position⟩ (.seq none [.scalar none .null, .seq none []]) (.seq none [.scalar none .null, .seq none [], .map none []]) := by
+  decide +kernel
+
+/-- finding C06-K2 on the model: `[{a: 1}, {b: 2}]` compared with itself under `--aoh key` is not
+clean; `keyed` (the hypothesis of `diff_refl`) fails for it and holds for `[{a: 1}, {a: 2}]` -/
+example : clean (report ⟨.position, .key⟩
+      (.seq none [.map none [(.str ['a'], .scalar none (.int 1))], .map none [(.str ['b'], .scalar none (.int 2))]])
+      (.seq none [.map none [(.str ['a'], .scalar none (.int 1))], .map none [(.str ['b'], .scalar none (.int 2))]])) = false
+    ∧ keyed ⟨.position, .key⟩
+      (.seq none [.map none [(.str ['a'], .scalar none (.int 1))], .map none [(.str ['b'], .scalar none (.int 2))]]) = false
+    ∧ keyed ⟨.position, .key⟩
+      (.seq none [.map none [(.str ['a'], .scalar none (.int 1))], .map none [(.str ['a'], .scalar none (.int 2))]]) = true := by
+  decide +kernel
+
+/-- the hypotheses of `diff_clean_iff_dataEq_key_root` on `[{a: 1, b: x}, {a: 2}]` vs `[{a: 2}, {a: 1, b: y}]` -/
+example :
+    let xs := [Node.map none [(.str ['a'], .scalar none (.int 1)), (.str ['b'], .scalar none (.str ['x']))],
+               Node.map none [(.str ['a'], .scalar none (.int 2))]]
+    let ys := [Node.map none [(.str ['a'], .scalar none (.int 2))],
+               Node.map none [(.str ['a'], .scalar none (.int 1)), (.str ['b'], .scalar none (.str ['y']))]]
+    listMode ⟨.position, .key⟩ xs ys = .key ∧ xs.all (hasIdentity (keyAttr ys)) = true
+      ∧ keyMatch (keyAttr ys) ys[0]! ys[1]! = false
+      ∧ clean (report ⟨.position, .key⟩ (.seq none xs) (.seq none ys)) = false
+      ∧ dataEq ⟨.position, .key⟩ (.seq none xs) (.seq none ys) = false := by
+  decide +kernel
+
+end Ypv.C06
